@@ -157,7 +157,7 @@ func runC02(p *P, r *R) {
 
 	walkerRecyclesHead(p, r, "R02.10")
 	// R02.9 a slot that re-enters the free chain carries no stale link (shared with C01 R01.5): the chain must end at the tail
-	borrow(p, r, "C01", runC01, map[string]string{"R01.5": "R02.9", "R01.8": "R02.9"}, nil)
+	borrow(p, r, "C01", runC01, map[string]string{"R01.5": "R02.9", "R01.8": "R02.9", "R01.14": "R02.9"}, nil)
 
 	// R02.7 the head CAS must not be ABA-prone: a stale popper's CAS detaches the rest of the chain (buffers lost)
 	abaRule(p, r, "R02.7")
@@ -214,7 +214,7 @@ func c02Distinct(p *P, r *R) {
 		return
 	}
 	found := false
-	where := ""
+	where, partial := "", ""
 	var scan func(f *ssa.Function, depth int)
 	seen := map[*ssa.Function]bool{}
 	scan = func(f *ssa.Function, depth int) {
@@ -242,6 +242,64 @@ func c02Distinct(p *P, r *R) {
 			// the equal edge must lead (without branching back) to a return of a non-nil error
 			tb := b.Succs[eqEdge]
 			if ret, ok := tb.Instrs[len(tb.Instrs)-1].(*ssa.Return); ok && len(ret.Results) > 0 && definitelyNonNil(ret.Results[len(ret.Results)-1]) {
+				// ... and the comparison must range over all pairs: the two operands are driven by two different loop
+				// variables (nested loops), or the slice was sorted before (then neighbours suffice)
+				px, py := loopVars(bo.X, 8), loopVars(bo.Y, 8)
+				independent := false
+				for x := range px {
+					for y := range py {
+						if x != y && x.Block() != y.Block() {
+							independent = true
+						}
+					}
+				}
+				sorted := false
+				for _, si := range findInstrs(f, p.mCall("sort.Sort", "sort.Slice", "sort.SliceStable", "sort.Stable")) {
+					if instrDominates(si, ifi) {
+						sorted = true
+					}
+				}
+				if independent || sorted {
+					found = true
+					where = p.ipos(ifi)
+				} else {
+					partial = p.ipos(ifi)
+				}
+			}
+		}
+		// alternative idiom: a set of the sizes seen so far (`if seen[size] { return err }; seen[size] = true`)
+		for _, b := range f.Blocks {
+			ifi := blockIf(b)
+			if ifi == nil {
+				continue
+			}
+			c, neg := stripNot(ifi.Cond)
+			var lk *ssa.Lookup
+			switch x := c.(type) {
+			case *ssa.Lookup:
+				lk = x
+			case *ssa.Extract:
+				lk, _ = x.Tuple.(*ssa.Lookup)
+			}
+			if lk == nil || !isLoadOf(stripConv(lk.Index), "SizePercentPair.Size") {
+				continue
+			}
+			hitEdge := 0
+			if neg {
+				hitEdge = 1
+			}
+			tb := b.Succs[hitEdge]
+			ret, ok := tb.Instrs[len(tb.Instrs)-1].(*ssa.Return)
+			if !ok || len(ret.Results) == 0 || !definitelyNonNil(ret.Results[len(ret.Results)-1]) {
+				continue
+			}
+			recorded := false
+			allInstrs(f, func(in ssa.Instruction) {
+				if mu, ok := in.(*ssa.MapUpdate); ok && mu.Map == lk.X && isLoadOf(stripConv(mu.Key), "SizePercentPair.Size") {
+					recorded = true
+				}
+			})
+			if recorded {
 				found = true
 				where = p.ipos(ifi)
 			}
@@ -254,7 +312,7 @@ func c02Distinct(p *P, r *R) {
 	}
 	scan(vc, 2)
 	r.ob("R02.4", "configuration validation rejects duplicate slice sizes (recycling selects the class by cap equality)", where, found, true,
-		"allocation picks a list by order, recycling by equality on cap: they agree only if sizes are distinct; need `if a.Size == b.Size { return err }` in VerifyConfig")
+		"allocation picks a list by order, recycling by equality on cap: they agree only if all sizes are pairwise distinct; need `if a.Size == b.Size { return err }` over all pairs in VerifyConfig (a comparison of neighbours only was found at %q)", partial)
 	ns := p.fn("newSession")
 	if ns == nil {
 		r.fail("R02.4", "anchor newSession", "", "function not found")
@@ -359,4 +417,47 @@ func walkerRecyclesHead(p *P, r *R, rule string) {
 			"a further condition in front of the walk drops the whole chain: %s", p.pathString(res))
 	}
 	r.count(rule, "chain walkers with a head parameter", n, 1)
+}
+
+// loopVars: the loop-carried values (phis of loop headers, range iterators) a value is computed from.
+func loopVars(v ssa.Value, depth int) map[ssa.Instruction]bool {
+	out := map[ssa.Instruction]bool{}
+	seen := map[ssa.Value]bool{}
+	var walk func(v ssa.Value, d int)
+	walk = func(v ssa.Value, d int) {
+		if v == nil || d < 0 || seen[v] {
+			return
+		}
+		seen[v] = true
+		switch x := v.(type) {
+		case *ssa.Phi:
+			out[x] = true
+		case *ssa.Next:
+			out[x] = true
+		case *ssa.Extract:
+			walk(x.Tuple, d-1)
+		case *ssa.UnOp:
+			walk(x.X, d-1)
+		case *ssa.FieldAddr:
+			walk(x.X, d-1)
+		case *ssa.IndexAddr:
+			walk(x.X, d-1)
+			walk(x.Index, d-1)
+		case *ssa.Index:
+			walk(x.X, d-1)
+			walk(x.Index, d-1)
+		case *ssa.BinOp:
+			walk(x.X, d-1)
+			walk(x.Y, d-1)
+		case *ssa.Slice:
+			walk(x.X, d-1)
+		case *ssa.Convert:
+			walk(x.X, d-1)
+		case *ssa.Lookup:
+			walk(x.X, d-1)
+			walk(x.Index, d-1)
+		}
+	}
+	walk(v, depth)
+	return out
 }
